@@ -139,11 +139,14 @@ def cmpVal (d : Dim) (op : CmpOp) (x v : Val) : Bool :=
   | .lt => numLt x v
   | .gt => numLt v x
 
-/-- a condition on an inactive (or unknown) parent is not satisfied -/
+/-- ConfigSpace evaluates a condition on the vector representation, in which an inactive parent
+is `NaN`: `==`, `<`, `>`, `in` on an inactive parent are not satisfied — but `!=` is
+(`NaN != value`), so a `NotEqualsCondition` on an inactive parent leaves the child active -/
 def evalCond (hps : List Hp) (x : Config) (act : List Bool) : Cond → Bool
   | .cmp p op v =>
     match act[p]?, hps[p]?, x[p]? with
     | some true, some h, some xv => cmpVal h.dim op xv v
+    | some false, some _, some _ => decide (op = .ne)
     | _, _, _ => false
   | .isIn p vs =>
     match act[p]?, x[p]? with
@@ -411,6 +414,13 @@ def legalAll : List Hp → List Val → List Bool → Bool
     (if a then legalDim h.dim v else decide (canon h.dim = some v)) && legalAll hs vs as
   | _, _, _ => false
 
+/-- the exceptions ConfigSpace raises while a configuration is validated -/
+inductive DErr
+  | illegal        -- IllegalValueError / IllegalVectorizedValueError
+  | activeNotSet   -- ActiveHyperparameterNotSetError
+  | forbidden      -- ForbiddenValueError
+  deriving DecidableEq, Repr
+
 /-- `Space.deactivate_inactive_dimensions` (after the fix).  With a ConfigSpace attached:
 1. `drop_inactive_values`: the values of the hyperparameters that are inactive for the given
    values are dropped (here: replaced by the placeholder the method fills in at the end);
@@ -420,22 +430,32 @@ def legalAll : List Hp → List Val → List Bool → Bool
    `ActiveHyperparameterNotSetError`;
 3. the result is validated: legal values (`IllegalValueError`), no forbidden clause among the
    active hyperparameters (`ForbiddenValueError`).
-`none` = it raises. -/
+The error says which exception is raised.  (`deactivateCS`: the steps with a ConfigSpace,
+also what `RegularizedEvolution` does to a mutated configuration.) -/
+def deactivateCS (ne : NumEnv) (d : Decl) (x : Config) : Except DErr Config :=
+  let act1 := activeList d x
+  match canonAll ne d.hps x act1 with
+  | none => .error .illegal
+  | some y1 =>
+    let act2 := activeList d y1
+    if (List.zip act1 act2).any (fun p => !p.1 && p.2) then .error .activeNotSet
+    else
+      match canonAll { ne with rnd := fun q => q } d.hps y1 act2 with
+      | none => .error .illegal
+      | some y =>
+        let act := activeList d y
+        if legalAll d.hps y act then
+          if d.forbs.any (forbHolds d.hps y act) then .error .forbidden else .ok y
+        else .error .illegal
+
+/-- `Space.deactivate_inactive_dimensions`: the identity when no ConfigSpace is attached
+(`config_space is None`: no condition, no forbidden clause), else `deactivateCS` -/
+def deactivateE (ne : NumEnv) (d : Decl) (x : Config) : Except DErr Config :=
+  if d.unconstrained then .ok x else deactivateCS ne d x
+
+/-- `Space.deactivate_inactive_dimensions`: `none` = it raises (whatever the exception) -/
 def deactivate (ne : NumEnv) (d : Decl) (x : Config) : Option Config :=
-  if d.unconstrained then some x
-  else
-    let act1 := activeList d x
-    match canonAll ne d.hps x act1 with
-    | none => none
-    | some y1 =>
-      let act2 := activeList d y1
-      if (List.zip act1 act2).any (fun p => !p.1 && p.2) then none
-      else
-        match canonAll { ne with rnd := fun q => q } d.hps y1 act2 with
-        | none => none
-        | some y =>
-          let act := activeList d y
-          if legalAll d.hps y act && !(d.forbs.any (forbHolds d.hps y act)) then some y else none
+  (deactivateE ne d x).toOption
 
 /-- clip → `inverse_transform` → `deactivate_inactive_dimensions` -/
 def fin (ne : NumEnv) (d : Decl) (t : List Slice) : Option Config :=
